@@ -853,7 +853,7 @@ func init() {
 }
 
 // c09Ops: operation index -> variants worth running
-var c09Names = []string{"packet loop (Parse+Notify)", "purge", "FindIP+row read", "GetHosts+row read", "FindByMAC", "FindMACEntry", "Capture", "Release", "IsCaptured", "IPAddrs", "DHCP offer accessors", "PrintTable", "DHCPv4Update", "name update", "Close"}
+var c09Names = []string{"packet loop (Parse+Notify)", "purge", "FindIP+row read", "GetHosts+row read", "FindByMAC", "FindMACEntry", "Capture", "Release", "IsCaptured", "IPAddrs", "DHCP offer accessors", "PrintTable", "DHCPv4Update", "name update", "Close", "DHCPv4IPOffer alone", "SetDHCPv4IPOffer alone"}
 
 func threadJobs(tier string) []Job {
 	c := Config{MaxLoop: 100, MaxWall: 1500, Preempt: -1, Stubs: map[string]bool{}}
@@ -869,7 +869,7 @@ func threadJobs(tier string) []Job {
 	if tier == "thorough" {
 		pv = []int64{0, 1, 2, 3, 4}
 	}
-	for b := int64(1); b <= 14; b++ { // the packet loop against every other operation
+	for b := int64(1); b <= 16; b++ { // the packet loop against every other operation
 		if b == 12 {
 			continue // DHCPv4Update is called by the DHCP handler from inside the packet loop: never concurrent with Parse
 		}
@@ -880,9 +880,9 @@ func threadJobs(tier string) []Job {
 			}
 		}
 	}
-	for a := int64(1); a <= 14; a++ { // every pair of control / query operations (incl. purge and Close)
-		for b := a; b <= 14; b++ {
-			if tier != "thorough" && a != 1 && b != 14 && !(a == 12 || a == 13 || a == 6 || a == 7 || a == 10) {
+	for a := int64(1); a <= 16; a++ { // every pair of control / query operations (incl. purge and Close)
+		for b := a; b <= 16; b++ {
+			if tier != "thorough" && a != 1 && b != 14 && !(a == 12 || a == 13 || a == 6 || a == 7 || a == 10 || b >= 15) {
 				continue // quick tier: pairs of pure readers are left to the thorough tier
 			}
 			if a == 12 && b == 12 {
@@ -939,7 +939,7 @@ func init() {
 		Bounds: func(tier string) map[string]string {
 			m := map[string]string{
 				"threads":  "2 goroutines (thorough: also 3: packet loop + purge + one API caller), one operation each, started from a table with MAC1{2 IPv4 hosts} and MAC2{1 host} whose online flags and ages are symbolic",
-				"ops":      "packet loop (Parse+Notify of a frame refreshing a host / claiming another MAC's address / from a new host), purge(now), FindIP, GetHosts, FindByMAC, FindMACEntry, Capture, Release, IsCaptured, IPAddrs, DHCP offer accessors, PrintTable, DHCPv4Update, Host.UpdateMDNSName, Close",
+				"ops":      "packet loop (Parse+Notify of a frame refreshing a host / claiming another MAC's address / from a new host), purge(now), FindIP, GetHosts, FindByMAC, FindMACEntry, Capture, Release, IsCaptured, IPAddrs, DHCP offer accessors (together and each on its own), PrintTable, DHCPv4Update, Host.UpdateMDNSName, Close",
 				"handlers": "ARP handler: spoof loop (started by StartHunt) || one of ProcessPacket (ARP request from the victim), StopHunt, StartHunt of another host, IsHunting, PrintTable, StopHunt+StartHunt || optional early Close; ICMPv6 handler: NA spoof loop || one of ProcessPacket (router advertisement), StopHunt, StartHunt, PrintTable, StopHunt+StartHunt || optional early Close or a concurrent ProcessPacket, with and without a known router; the session's own background goroutines are not started; timers fire at most once per path; every run ends with Close and must leave no goroutine blocked; DHCP handler: ProcessPacket (DISCOVER of a new client, primary and secondary mode, one lease that may be expired) || one of MinuteTicker, PrintTable, StartHunt, StopHunt, Close; naming handler: ProcessDNS (new name / name already stored) || one of DNSFind (and reading the returned copy), DNSExist, PrintDNSTable",
 				"schedule": "quick: non-preemptive schedules (every order in which threads start / resume after blocking); thorough: one preemption at any acquire. The happens-before race check is schedule independent for the code executed on a path",
 			}
